@@ -12,7 +12,6 @@ VERIF = os.path.dirname(os.path.dirname(os.path.abspath(__file__)))
 NA = {
     'C05': 'thread schedules: Kani has no thread support, Verus would need the code rewritten onto its permission types',
     'C06': 'thread schedules between reader open and compaction cleanup; not expressible as a per-call contract',
-    'C12': 'relational over two segmentations of a 3.6k-line module built on serde_json::Value, hash maps and f64 accumulation; no collector or merge function is within either verifier',
     'C15': 'the contract validate_document(d).is_ok() => collect_document(d).is_ok() is over recursive serde_json::Value walks with iterator chains and format!: outside Verus subset, not executable under CBMC',
     'C18': 'collapse_hits is a method over segments with BTreeMap<String,Vec<_>>, sort_by closures and fast-field reads; slicing would assume every callee (only the order it sorts by is verified, under C10)',
     'C22': 'predicates iterate chars() into SmallVecs (rejected by Verus, >25 min under CBMC on five fixed strings); candidate collection is HashMap code',
